@@ -320,6 +320,14 @@ func (ex *Exec) callExternal(fr *Frame, name string, sig *types.Signature, recv 
 	// ---------- sort
 	case short == "sort.Slice" || short == "sort.SliceStable":
 		return ex.sortSlice(fr, st, args, call, short == "sort.SliceStable")
+	// ---------- address / byte-string wrappers: Bytes() is the identity on the underlying bytes
+	case method == "Bytes" && sig.Params().Len() == 0 && sig.Results().Len() == 1 && isByteSlice(sig.Results().At(0).Type()) && recv != nil:
+		if t, ok := recv.(*Term); ok && t.Sort == SBytes {
+			return one(t)
+		}
+		if b, ok := recv.(*ByteSlV); ok {
+			return one(ex.content(st, b.Obj))
+		}
 	// ---------- telemetry and similar no-ops
 	case strings.HasPrefix(short, "telemetry.") || strings.HasPrefix(short, "metrics."):
 		return one(ex.freshResults(st, sig))
